@@ -121,6 +121,22 @@ CHECKS["C11"] = dict(
          "SMEMBERS/SUNION/SINTER/SDIFF compared after sorting; a negative SRANDMEMBER count below -2^20 may be refused (grey clause).",
 )
 
+CHECKS["C10"] = dict(
+    category="proof", design_ref="DESIGN.md §6 C10", engine="exec",
+    technique="Lean 4 executable hash model with kernel-checked map laws, invariants and checker soundness + differential correspondence (replies and keyspace dumps) on generated command programs",
+    text="The 14 hash executors are modelled as total Lean functions on the shared keyspace (Exec/Hash.lean over the field table of Ds/HashSel.lean). "
+         "Kernel-checked (Props/C10.lean, C10_holds): HGET after HSET answers the last value written for every byte string incl. the empty one; "
+         "the HSET/HDEL/HSETNX replies count exactly what changed; HDEL removes exactly the named fields and an emptied hash leaves the keyspace "
+         "with its deadline; fields stay unique and no empty hash is stored under all 14 commands; HLEN/HEXISTS/HSTRLEN agree with HGET; HINCRBY "
+         "is the exact int64 sum or rejected with the hash unchanged; the HRANDFIELD checker accepts only replies made of existing fields with the "
+         "reference's count/distinctness/WITHVALUES semantics. The model is tied to the Go executors by running generated programs (empty, numeric, "
+         "extreme-integer, float and binary fields/values, repeated fields, odd argument counts, keys of other types, live and passed deadlines, "
+         "extreme HRANDFIELD counts) through server.Manager.ExecCommand and comparing every reply and the dump of the touched keys.",
+    note="Trusted: Lean kernel (propext, Classical.choice, Quot.sound), harness/driver/dump hook, strconv mirrored by the model's integer parser. "
+         "Error replies compared by class; HINCRBYFLOAT arithmetic and HRANDFIELD selection are the implementation's (checker mode); "
+         "HGETALL/HKEYS/HVALS compared up to order.",
+)
+
 NOT_YET = "check not built yet in this round; see DESIGN.md §8"
 NOT_APPLICABLE = {}
 
